@@ -35,9 +35,10 @@ ASSUMPTIONS = ['latitude taken from RFC 3501: superior names implied by '
                'with inferiors may succeed or be refused; SUBSCRIBE of a '
                'missing name may be refused; RENAME INBOX may be refused '
                '(maildir: not supported) but must follow the model when OK',
-               'not generated: names with a trailing delimiter, "." in '
-               'components under the "++" layout (on-disk alias of the '
-               'delimiter), renaming a mailbox to its own inferior',
+               'not generated: names with a trailing delimiter, renaming a '
+               'mailbox to its own inferior; a component with "." may be '
+               'refused under the "++" layout (the dot nests folder names on '
+               'disk) but must not be accepted and then aliased',
                'INBOX counts as permanently subscribed (pinned by the '
                'repository tests)',
                'maildir runs under harness.fsmon confinement to the base '
@@ -45,7 +46,7 @@ ASSUMPTIONS = ['latitude taken from RFC 3501: superior names implied by '
 BUDGET = {'quick': (400, 16), 'thorough': (8000, 16)}
 
 COMPS = ['a', 'b', 'c', 'A', 'Inbox', 'x*', '%y', 'q"t', 'b\\s', 'n\nl', 'é',
-         '中 文', 'a b', 'a&b', '~', 'inbox']
+         '中 文', 'a b', 'a&b', '~', 'inbox', 'a.b', 'x.y', '.h', 'c.']
 PATTERNS = ['*', '%', '%/%', 'a*', '*b', 'a/%', 'a/*', '*/c', 'INB*', 'inbox',
             '%b%', 'a/%/c', '*x*', 'n*', '*\n*', '%l', 'q*', '*é', 'A']
 PTOKENS = ['*', '%', '/', 'a', 'b', 'c', 'A', '*']
@@ -83,6 +84,16 @@ def _name(a: int, b: int, existing: list[str]) -> str:
     depth = 1 + (a // 6) % 3
     return '/'.join(COMPS[(b + 5 * i + a * i) % len(COMPS)]
                     for i in range(depth))
+
+
+def _may_refuse(name: str, backend: str) -> bool:
+    """names a maildir layout cannot represent: '.' and '..' components
+    (both layouts), any dot under Maildir++"""
+    if not backend.startswith('maildir'):
+        return False
+    if backend == 'maildir++' and '.' in name:
+        return True
+    return any(p in ('.', '..') for p in name.split('/'))
 
 
 def _lit(name: str) -> bytes:
@@ -163,8 +174,12 @@ def run_case(case: dict[str, Any]) -> CaseOut:
                     pool = twins
                     out.label('rename-source-is-string-prefix-of-sibling')
                 nm = pool[b % len(pool)]
-            if backend == 'maildir++' and '.' in nm:
-                continue
+            # the Maildir++ layout uses '.' for nesting in its folder names:
+            # it may refuse a component with a dot, but if it accepts one it
+            # must treat it as that name (and not as an alias of 'x/y')
+            dotted = _may_refuse(nm, backend)
+            if '.' in nm:
+                out.label('name-with-dot')
             if '/' in nm and nm.split('/')[0].upper() == 'INBOX':
                 continue       # inferiors of INBOX: optional behaviour
             if re.search(r'[*%\n]|[^\x00-\x7f]', nm):
@@ -185,7 +200,10 @@ def run_case(case: dict[str, Any]) -> CaseOut:
                         maybe.discard(nm)
                         names[nm] = {'msgs': [], 'uv': None}
                 elif not res.ok:
-                    fail('create-refused', f'{desc} -> {res.raw!r}')
+                    if dotted:
+                        out.label('dotted-name-refused')
+                    else:
+                        fail('create-refused', f'{desc} -> {res.raw!r}')
                 else:
                     names[nm] = {'msgs': [], 'uv': None}
                     maybe.update(x for x in _ancestors(nm) if x not in names)
@@ -210,8 +228,7 @@ def run_case(case: dict[str, Any]) -> CaseOut:
                     maybe.discard(nm)
             elif op == 'rename':
                 to = _canon(_name(k, d, existing))
-                if backend == 'maildir++' and '.' in to:
-                    continue
+                dotted_to = _may_refuse(to, backend)
                 if to == nm or to.startswith(nm + '/') or \
                         nm.startswith(to + '/') or (
                             '/' in to and to.split('/')[0].upper() == 'INBOX'):
@@ -252,7 +269,10 @@ def run_case(case: dict[str, Any]) -> CaseOut:
                         maybe.update(x for x in _ancestors(to)
                                      if x not in names)
                 elif not res.ok:
-                    fail('rename-refused', f'{desc} -> {res.raw!r}')
+                    if dotted_to:
+                        out.label('dotted-name-refused')
+                    else:
+                        fail('rename-refused', f'{desc} -> {res.raw!r}')
                 else:
                     if kids:
                         nt = True
